@@ -555,6 +555,30 @@ let run_params (line : string) : string =
   | ["acc"; h; q; b; g; e; f; r] ->
     let o = (((((z_of_string q, z_of_string b), z_of_string g), z_of_string e), z_of_string f), z_of_string r) in
     "OK accepts=" ^ (if accepts (z_of_string h) o then "1" else "0")
+  | "pub" :: rest ->
+    (* pub <h0..h3> K <k> <4k kernel elements> I <n> <inputs> O <n> <outputs> A <n> <addrs> *)
+    let rec take n l acc = if n = 0 then (List.rev acc, l) else (match l with x :: t -> take (n - 1) t (x :: acc) | [] -> failwith "short pub case") in
+    let zs = List.map z_of_string in
+    let (h, r1) = take 4 rest [] in
+    (match r1 with
+     | "K" :: k :: r2 ->
+       let k = int_of_string k in
+       let rec words n l acc = if n = 0 then (List.rev acc, l) else let (w, l') = take 4 l [] in words (n - 1) l' (zs w :: acc) in
+       let (kw, r3) = words k r2 [] in
+       (match r3 with
+        | "I" :: n :: r4 ->
+          let (ins, r5) = take (int_of_string n) r4 [] in
+          (match r5 with
+           | "O" :: n :: r6 ->
+             let (outs, r7) = take (int_of_string n) r6 [] in
+             (match r7 with
+              | "A" :: n :: r8 ->
+                let (addrs, _) = take (int_of_string n) r8 [] in
+                "OK " ^ String.concat "," (List.map s_of_z (pub_elements (zs h) kw (zs ins) (zs outs) (zs addrs)))
+              | _ -> failwith "bad pub case A")
+           | _ -> failwith "bad pub case O")
+        | _ -> failwith "bad pub case I")
+     | _ -> failwith "bad pub case K")
   | ["tlen"; c; r; h] -> "OK len=" ^ s_of_z (trace_len (z_of_string c) (z_of_string r) (z_of_string h))
   | _ -> failwith "bad params case"
 
